@@ -437,3 +437,24 @@ package checkers
 //@   requires c != nil && ctxOK(c.ctx)
 //@   requires @subject-is-the-builtin-append spreadArgOfAppend(c.ctx, appendFrom)
 //@   call Warn requires @diagnostic-is-about-the-builtin-append typeIs(arg1, "*ast.Ident") && spreadArgOfAppend(c.ctx, cast(arg1, "*ast.Ident"))
+
+// ---- C12: claims of a constant outcome are true of the analysed code
+
+// `x < a && x > b` is reported as always false: x is one side-effect-free expression, a and b are constants, and no
+// value lies below a and above b
+//@ spec alwaysFalsePair(ctx *linter.CheckerContext, l *ast.BinaryExpr, r *ast.BinaryExpr) bool = astEq(l.X, r.X) && sideEffectFree(ctx.TypesInfo, l.X) && (forall v float64 :: !(cmpTok(l.Op, v, constNum(ctx.TypesInfo.Types[l.Y].Value)) && cmpTok(r.Op, v, constNum(ctx.TypesInfo.Types[r.Y].Value))))
+
+//@ func (*badCondChecker).lessAndGreater
+//@   prop C12
+//@   nosafety node shapes are the subject of the C01 sweep
+//@   astvalid
+//@   pure
+//@   requires c != nil && ctxOK(c.ctx)
+//@   ensures @claim-always-false result ==> (lhs.Op == token.LSS && rhs.Op == token.GTR && alwaysFalsePair(c.ctx, lhs, rhs))
+
+//@ func (*badCondChecker).checkExpr
+//@   prop C12
+//@   nosafety node shapes are the subject of the C01 sweep
+//@   astvalid
+//@   requires c != nil && ctxOK(c.ctx)
+//@   call warnCond#1 requires @claim-always-false arg1 != nil && arg1.Op == token.LAND && typeIs(unparen(arg1.X), "*ast.BinaryExpr") && typeIs(unparen(arg1.Y), "*ast.BinaryExpr") && alwaysFalsePair(c.ctx, cast(unparen(arg1.X), "*ast.BinaryExpr"), cast(unparen(arg1.Y), "*ast.BinaryExpr"))
